@@ -88,18 +88,8 @@ static bool parseLine(const std::vector<std::string> & t, Line & L)
 static std::string evName(bool to, int i) {return (to ? "T" : "") + vh::u64s((uint64_t)i);}
 
 // Generator mode executes what it generates.  If the real code crashes there (assertion, sanitizer report), the line
-// being executed — programs + the events that ran + the event in progress — is written out first, so that the crash
-// reproduces in `run` mode (./check re-runs the partial op file of a generator that died) and can be shrunk and replayed.
-static bool g_genMode = false;
-static std::string g_pendingLine;
-static void emitPendingAndDie()
-{
-   static bool once = false;
-   if ((g_genMode)&&(!once)&&(!g_pendingLine.empty())) {once = true; fputs(g_pendingLine.c_str(), stdout); fputc('\n', stdout); fflush(stdout);}
-}
-static void onFatalSignal(int sig) {emitPendingAndDie(); signal(sig, SIG_DFL); raise(sig);}
-extern "C" void __sanitizer_set_death_callback(void (*cb)(void));
-
+// being executed — programs + the events that ran + the event in progress — is registered with vh::genPending() first, so
+// that libvh's fatal handlers append it to the op file and the crash reproduces in `run` mode (see vh.h).
 static std::string lineTextOf(const Line & L)
 {
    std::string s = std::string("x ") + (L.pref ? "1" : "0") + " " + vh::u64s(L.progs.size());
@@ -213,8 +203,9 @@ struct Exec
          const bool isTry = ((c == 'r')||(c == 'w')), isTimed = ((c == 'p')||(c == 'q'));
          if ((isTry)||((isTimed)&&(p.arg == 0)))
          {
-            if ((upgrading[i])&&(p.arg == 0)) fail(std::string("F13-signature: ") + (isTry ? "TryLockReadWrite() (time-out 0)" : "timed LockReadWrite()") + " called by a read-lock holder is parked in an UNTIMED Wait(): the upgrade path of LockReadWriteAux re-takes the read locks with LockReadOnly()");
-                                         else fail(std::string("a ") + (isTry ? "try" : "timed") + " acquisition `" + c + "` of thread " + vh::u64s((uint64_t)i) + " is parked in " + (p.arg ? "a timed" : "an untimed") + " Wait()");
+            // open finding F13 (timed variant only; the time-out-0 variant was fixed in /repo by d881489): the upgrade path re-locks untimed
+            if ((isTimed)&&(upgrading[i])&&(p.arg == 0)) fail("F13-signature: timed LockReadWrite() (finite time-out) called by a read-lock holder is parked in an UNTIMED Wait(): the upgrade path of LockReadWriteAux re-takes the read locks with LockReadOnly()");
+                                                    else fail(std::string("a ") + (isTry ? "try" : "timed") + " acquisition `" + c + "` of thread " + vh::u64s((uint64_t)i) + " is parked in " + (p.arg ? "a timed" : "an untimed") + " Wait()" + (upgrading[i] ? " (read-to-write upgrade)" : ""));
          }
       }
    }
@@ -265,7 +256,7 @@ struct Exec
             const uint32_t ro = ts ? ts->_readOnlyRecurseCount : 0, rw = ts ? ts->_readWriteRecurseCount : 0;
             if ((ro != ownRoAtStart[i])||(rw != ownRwAtStart[i])) fail(std::string("a failed try/timed acquisition `") + c + "` changed the caller's own counts: " + snapshot());
             if ((m->_waitingReaderThreads.ContainsKey(tids[i]))||(m->_waitingWriterThreads.ContainsKey(tids[i]))) fail(std::string("a failed try/timed acquisition `") + c + "` left the caller in a waiting table: " + snapshot());
-            if ((slicesInOp[i] == 1)&&(!wasUpgrading)&&(snapshot() != lastSnap)) fail(std::string("a failed single-step try `") + c + "` changed the lock state: before [" + lastSnap + "] after [" + snapshot() + "]");
+            if ((slicesInOp[i] == 1)&&(snapshot() != lastSnap)) fail(std::string("a failed single-step try `") + c + "` changed the lock state: before [" + lastSnap + "] after [" + snapshot() + "]");
          }
          curOp[i] = -1;
       }
@@ -304,11 +295,11 @@ struct Exec
       std::string out;
       int last = -1;
       std::string ranText;
-      if (g_genMode) {Line b = L; b.evs.clear(); ranText = lineTextOf(b);}
+      if (vh::g_genMode) {Line b = L; b.evs.clear(); ranText = lineTextOf(b);}
       for (size_t e=0; e<L.evs.size(); e++)
       {
          const bool to = L.evs[e].first; const int i = L.evs[e].second;
-         if (g_genMode) {g_pendingLine = ranText + " " + evName(to, i); }
+         if (vh::g_genMode) vh::genPending(ranText + " " + evName(to, i));
          slice.clear();
          const bool en = (i < n) && (to ? S.timeoutEnabled(i) : S.runnable(i));
          if (en) {noteEnabled(); if (i < n) slicesInOp[i]++;}
@@ -316,7 +307,7 @@ struct Exec
          if (!out.empty()) out += " ";
          out += evName(to, i) + ":";
          if (r == vh::CoopScheduler::STEP_SKIPPED) out += "-";
-         else {out += slice.empty() ? std::string(".") : slice; executed.push_back(L.evs[e]); if (g_genMode) ranText += " " + evName(to, i); afterStep(); if (!to) last = i;}
+         else {out += slice.empty() ? std::string(".") : slice; executed.push_back(L.evs[e]); if (vh::g_genMode) ranText += " " + evName(to, i); afterStep(); if (!to) last = i;}
       }
       out += out.empty() ? "|" : " |";
       for (int steps=0; steps<TAIL_CAP; steps++)
@@ -331,7 +322,7 @@ struct Exec
          if (pick < 0) for (int i=0; i<n; i++) if (S.timeoutEnabled(i)) {pick = i; to = true; break;}
          if (pick < 0) break;
          slice.clear();
-         if (g_genMode) {g_pendingLine = ranText + " " + evName(to, pick); ranText = g_pendingLine;}
+         if (vh::g_genMode) {ranText += " " + evName(to, pick); vh::genPending(ranText);}
          noteEnabled(); slicesInOp[pick]++;
          if (to) (void) S.fireTimeout(pick); else (void) S.grant(pick);
          out += " " + evName(to, pick) + ":" + (slice.empty() ? std::string(".") : slice);
@@ -356,7 +347,7 @@ struct Exec
          recording = false;
          if (S.abortAll() == false) {fprintf(stderr, "rw: cannot unwind\n"); fflush(stdout); _exit(3);}
       }
-      g_pendingLine.clear();
+      vh::genPendingClear();
       delete m; m = NULL;
       return out;
    }
@@ -366,7 +357,8 @@ struct Exec
 static std::string lineText(const Line & L) {return lineTextOf(L);}
 
 // keep the triggers of the open finding F13 out of the generated stream (they run from corpus/C18/rw-known-F13.ops):
-// a try/timed LockReadWrite issued while the thread may hold a read lock but no write lock, with another thread that ever asks for the write lock
+// a TIMED LockReadWrite (`q`) issued while the thread may hold a read lock but no write lock, with another thread that ever
+// asks for the write lock.  (The time-out-0 variant `w` was fixed in /repo by d881489 and is generated freely.)
 static bool f13Shape(const std::vector<std::string> & progs)
 {
    for (size_t i=0; i<progs.size(); i++)
@@ -375,7 +367,7 @@ static bool f13Shape(const std::vector<std::string> & progs)
       for (size_t k=0; k<progs[i].size(); k++)
       {
          const char c = progs[i][k];
-         if (((c == 'w')||(c == 'q'))&&(r > 0)) risky = true;   // conservative: earlier acquisitions may have failed or succeeded
+         if ((c == 'q')&&(r > 0)) risky = true;   // conservative: earlier acquisitions may have failed or succeeded
          if ((c == 'R')||(c == 'r')||(c == 'p')) r++;
          if ((c == 'W')||(c == 'w')||(c == 'q')) w++;
          if ((c == 'u')&&(r > 0)) r--;
@@ -474,9 +466,6 @@ struct RWEngine : public vh::Engine
 
    virtual void gen(vh::Rng & rng, const vh::Tier & tier, FILE * out)
    {
-      g_genMode = true;
-      signal(SIGABRT, onFatalSignal); signal(SIGSEGV, onFatalSignal);
-      __sanitizer_set_death_callback(emitPendingAndDie);
       const uint32_t nprogs   = tier.thorough ? 220 : 30;     // programs explored per shard
       const uint32_t perProg  = tier.thorough ? 400 : 220;    // cap on explored schedules per program (fewest preemptions first)
       const uint32_t nrandom  = tier.thorough ? 20000 : 1500; // random lines per shard
